@@ -82,7 +82,10 @@ def classify_cause(ctx, body, op, depth=0):
         if nm.endswith("UnboundedSender::unbounded_send"):
             ety = ((t.get("callee") or {}).get("args") or ["?"])[0]
             return {"kind": "deliver-failed" if ety.endswith("RxPacket") else "enqueue-failed", "call": nm}
-        if nm.endswith("Result::and_then") or nm.endswith("Result::or_else") or nm.endswith("Option::transpose"):
+        if nm.endswith("Option::transpose"):
+            # Option<Result<T, E>> -> Result<Option<T>, E>: the error is the one carried by the transposed value
+            return {"kind": "value", "ty": local_ty(body, t["ops"][0]) or ty}
+        if nm.endswith("Result::and_then") or nm.endswith("Result::or_else"):
             at = body.atoms(op)
             calls = sorted({a[1] for a in at if a[0] == "call"})
             clos = [a[1] for a in at if a[0] == "closure"]
@@ -122,6 +125,10 @@ def classify_cause(ctx, body, op, depth=0):
                     if rv["k"] == "agg" and rv.get("variant") == "Ok":
                         continue
                     if rv["k"] == "agg" and rv.get("variant") == "Err":
+                        inner_c = _converted_inner_error(ctx, body, rv, depth)
+                        if inner_c is not None:
+                            causes.append(inner_c)
+                            continue
                         at = body.atoms(rv["ops"][0]) if rv["ops"] else set()
                         vs = sorted(a[2] for a in at if a[0] == "variant")
                         causes.append({"kind": "ok_or", "err": vs[0] if len(vs) == 1 else "?", "on": None} if vs else {"kind": "expr", "calls": sorted(a[1] for a in at if a[0] == "call"), "variants": []})
@@ -141,12 +148,18 @@ def classify_cause(ctx, body, op, depth=0):
                     causes = None
                     break
             if causes:
-                c0 = dict(causes[0])
-                if len({str(sorted((k, str(v)) for k, v in c.items())) for c in causes}) > 1:
-                    c0["also"] = [c.get("of") or c.get("err") or c.get("kind") for c in causes[1:]]
-                    c0["kind"] = c0["kind"] if all(c.get("kind") == c0["kind"] and c.get("of") == c0.get("of") for c in causes) else "mixed"
-                c0["through_helper"] = True
-                return c0
+                flat_ = []
+                for c in causes:
+                    flat_ += c["parts"] if c.get("kind") == "mixed" else [c]
+                uniq = []
+                for c in flat_:
+                    if not any(str(sorted((k, str(v)) for k, v in c.items())) == str(sorted((k, str(v)) for k, v in u.items())) for u in uniq):
+                        uniq.append(c)
+                if len(uniq) == 1:
+                    c0 = dict(uniq[0])
+                    c0["through_helper"] = True
+                    return c0
+                return {"kind": "mixed", "parts": uniq}
         for d in body.whole_defs(base):
             if d[0] == "call":
                 nm = callee_name(d[2]) or ""
@@ -175,6 +188,24 @@ def _agg_base(body, op):
             continue
         return pl["l"]
     return None
+
+
+def _converted_inner_error(ctx, body, rv, depth):
+    """`Err(From::from(e))` / `Err(e)` where e is the error of an inner Result: the cause is the inner Result's."""
+    if not rv["ops"] or rv["ops"][0].get("k") not in ("move", "copy") or depth > 5:
+        return None
+    o = body.origin(rv["ops"][0], through_calls=True)
+    if o[0] != "place":
+        return None
+    pr = o[1]["p"]
+    idx = [k for k, p in enumerate(pr) if isinstance(p, dict) and p.get("dc") == "Err"]
+    if not idx:
+        return None
+    inner = {"k": "copy", "pl": {"l": o[1]["l"], "p": pr[:idx[-1]]}}
+    c = dict(classify_cause(ctx, body, inner, depth + 1))
+    if c.get("kind") != "mixed":
+        c["mapped"] = True
+    return c
 
 
 def _literal_result(ctx, body, base, depth=0):
@@ -344,16 +375,22 @@ def exits_rule(ctx):
             if e["kind"] != "residual":
                 continue
             c = e["cause"]
-            label = None
-            for name, pred in ALLOWED.get(role, []):
-                try:
-                    if pred(c, e):
-                        label = name
-                        break
-                except Exception:
-                    pass
+            def _label(c1):
+                for name, pred in ALLOWED.get(role, []):
+                    try:
+                        if pred(c1, e):
+                            return name
+                    except Exception:
+                        pass
+                return None
+            if c.get("kind") == "mixed":
+                labels = [_label(c1) for c1 in c["parts"]]
+                label = "+".join(labels) if all(labels) else None
+            else:
+                label = _label(c)
             arm = _arm_label(ctx, role, body, e["bb"])
-            desc = c["kind"] + (":" + (c.get("err") or c.get("of") or c.get("call") or c.get("ty") or "")).rstrip(":")
+            cd = c if c.get("kind") != "mixed" else ([c1 for c1 in c["parts"] if _label(c1) is None] or c["parts"])[0]
+            desc = cd["kind"] + (":" + (cd.get("err") or cd.get("of") or cd.get("call") or cd.get("ty") or "")).rstrip(":")
             k = (role, arm, desc)
             counters[k] = counters.get(k, 0) + 1
             key = "%s:%s:%s#%d" % (role, arm, short_ty(desc), counters[k])
@@ -623,7 +660,8 @@ def first_response(ctx):
     never a panic."""
     out = []
     for name in ("connect", "authorize"):
-        b = ctx.coroutine(r"client::context::Context::<[^>]*>::" + name)
+        # flattened: a helper shared by connect() and authorize() for the reply handling is looked at in place
+        b = ctx.flat(ctx.coroutine(r"client::context::Context::<[^>]*>::" + name), keep=r"client::(rsp|error|opts)::")
         sw, arms, otherwise, other_vs, si = match_arms(b, RXPACKET)
         for v, want in (("Connack", "ConnectRsp"), ("Auth", "AuthRsp")):
             if v not in arms:
@@ -653,14 +691,19 @@ def first_response(ctx):
                                 "an error return, never a panic (every packet type at every phase)"))
         # stream end
         res = [e for e in exits(ctx, b) if e["kind"] == "residual"]
-        sc = [e for e in res if e["cause"]["kind"] == "expr" and "SocketClosed" in e["cause"].get("variants", [])]
+        def _sock(c):
+            return (c["kind"] == "expr" and "SocketClosed" in c.get("variants", [])) or (c["kind"] == "ok_or" and c.get("err") == "SocketClosed")
+        def _parts(c):
+            return c["parts"] if c.get("kind") == "mixed" else [c]
+        sc = [e for e in res if any(_sock(c1) for c1 in _parts(e["cause"]))]
         out.append(Inst("FIRST-RESPONSE", "%s:stream-end" % name, len(sc) == 1, b.site(sc[0]["bb"]) if sc else b.site(0),
                         "end of stream before the first response -> %s" % ("SocketClosed" if sc else "not mapped"), "SocketClosed"))
         # every other `?` exit classified
         for e in res:
-            c = e["cause"]
+          for c in _parts(e["cause"]):
             ok = (c["kind"] == "call" and (c["call"].endswith("Opts::build") or c["call"].endswith("::try_from") or "as std::convert::TryFrom" in c["call"])) or \
-                 (c["kind"] == "await" and c["of"].endswith("TxPacketStream::write")) or (c["kind"] == "expr" and "SocketClosed" in c.get("variants", []))
+                 (c["kind"] == "await" and c["of"].endswith("TxPacketStream::write")) or _sock(c) or \
+                 (c["kind"] == "value" and "Result<codec::packet::RxPacket, core::error::CodecError>" in (c.get("ty") or ""))
             out.append(Inst("FIRST-RESPONSE", "%s:exit:%s" % (name, short_ty(c.get("call") or c.get("of") or c["kind"])), ok, b.site(e["bb"]),
                             "`?` exit caused by %s" % c, "build refusal, write failure, stream end / undecodable, or the response conversion"))
     return out
